@@ -174,7 +174,12 @@ class PRODEngine(Engine):
         if kind == "sendduringretry":
             return warm + [["err", b, code, k, ti, -1], send(), ["run", 12], send(), send(), ["timer"], ["run", 12], ["timer"], ["run", 20]]
         if kind == "cancelqueued":
-            return warm + [["hold", b], send(), send("tn"), send("tp"), ["cancel", 1], send(), ["cancel", 0], ["run", 6], ["release", 0], ["run", 20], send(), ["wait", 3], ["run", 12]]
+            # fill the thresholds so that a batch goes out and is held in flight; queue one more send and cancel it while
+            # it is queued; let the batch finish; then approach the thresholds again
+            fill = [send("tp") for _ in range(draw(st.integers(2, 6)))]
+            victim = send(draw(st.sampled_from(["tn", "tnn", "tp", "t", "tnp"])))
+            after = [send(draw(st.sampled_from(["t", "t", "tn"]))) for _ in range(draw(st.integers(1, 5)))]
+            return warm + [["hold", b]] + fill + [["run", 4], victim, ["cancel_last", 0], ["run", 4], ["release", 0], ["run", 20]] + after + [["run", 12], ["wait", 3], ["run", 12]]
         if kind == "holdburst":
             return warm + [["hold", b]] + [send(draw(st.sampled_from(["t", "tt", "tp", "tn"]))) for _ in range(draw(st.integers(2, 6)))] + [["run", 6], ["release", 0], ["run", 20], ["wait", 3], ["run", 12]]
         if kind == "stopinflight":
@@ -309,11 +314,11 @@ class PRODEngine(Engine):
             if any(x.cancelled_at is not None and getattr(x, "cancel_before_dispatch", False) for x in self.sends):
                 self.nt.add("cancel-queued-then-more-sends")
             self._after_event()
-        elif op == "cancel":
+        elif op in ("cancel", "cancel_last"):
             pend = [s for s in self.sends if s.watch is not None and s.watch.state == "pending"]
             if not pend:
                 return
-            s = pend[step[1] % len(pend)]
+            s = pend[step[1] % len(pend)] if op == "cancel" else pend[-1]
             self.evseq += 1
             s.cancelled_at = self.evseq
             # "before dispatch" is certain only when a dispatch would have been a synchronous write (warm)
@@ -931,6 +936,10 @@ class PRODEngine(Engine):
             self.raise_noted()
         quiet = self._quiet_phase()
         if not quiet:
+            if self.stopped and w.afkak_calls() and not w.pending():
+                # long after stop() (faults lifted, nothing on the wire) timers are still being re-armed
+                self.note("C19.stop-transmits-nothing", "C19.timers-left-after-stop", "delayed calls still active long after stop(): %r" % [repr(d)[:100] for d in w.afkak_calls()[:3]])
+                return
             self.ctx.inconclusive += 1
             self.labels.add("inconclusive-horizon")
             return
